@@ -76,9 +76,7 @@ func c20Single(c *C20Case) Verdict {
 		if gap < w {
 			return bad("C20:wait-too-short", "attempt %d started %v after attempt %d failed; configured wait is %v", a, gap, a-1, w)
 		}
-		if gap != w {
-			return bad("C20:wait-not-exact", "attempt %d started %v after attempt %d failed; configured wait is %v (virtual clock: must be exact)", a, gap, a-1, w)
-		}
+		// gap > w is admissible ("at least w"): e.g. a back-off policy
 	}
 	if deadline >= 0 {
 		if len(execs) != c.CancelAfter+1 {
@@ -87,8 +85,11 @@ func c20Single(c *C20Case) Verdict {
 		if rr.Err == nil || !errors.Is(rr.Err, context.DeadlineExceeded) {
 			return bad("C20:cancel-error", "cancelled during the wait but run returned %v", rr.Err)
 		}
-		if finished != deadline {
-			return bad("C20:not-prompt", "cancellation at %v during a %v wait, run returned at %v (must return at the cancellation instant)", deadline, w, finished)
+		// promptly = without sleeping out the remainder of the wait (and, for the 1 h wait,
+		// within a generous virtual minute); an implementation polling the context is fine
+		waitEnd := execs[len(execs)-1].T1 + w
+		if finished >= waitEnd || finished-deadline > time.Minute {
+			return bad("C20:not-prompt", "cancellation at %v during a %v wait that would have ended at %v: run returned only at %v", deadline, w, waitEnd, finished)
 		}
 		return ok(true, "single", "cancel-in-wait", fmt.Sprintf("after-attempt-%d", c.CancelAfter))
 	}
@@ -126,7 +127,7 @@ func c20Batch(c *C20Case) Verdict {
 		}
 		for a := 1; a < len(execs); a++ {
 			gap := execs[a].Start - execs[a-1].End
-			if gap != w {
+			if gap < w {
 				return bad("C20:item-wait", "item %d: attempt %d started %v after attempt %d failed; configured wait %v", i, a, gap, a-1, w)
 			}
 		}
@@ -168,7 +169,7 @@ func c20Batch(c *C20Case) Verdict {
 		if lastEnd > limit {
 			limit = lastEnd
 		}
-		if br.Finished > limit {
+		if br.Finished > limit+time.Minute || (w > 0 && br.Finished >= limit+w) {
 			return bad("C20:batch-not-prompt", "deadline at %v, last callback ended at %v, but the run returned at %v (wait %v slept out?)", dl, lastEnd, br.Finished, w)
 		}
 		return ok(nontrivial, "batch", "deadline", fmt.Sprintf("c=%d", min(sc.C, 4)))
